@@ -123,3 +123,13 @@ Theorem C01_spline_routing_returns_without_long_edges :
   exists g' x, PipelineSpl.layout_component_sx SplineShort.shortest_geom fit mk_inner bk o g = Ok (g', x).
 Proof. intros fit mk_inner. exact (SplineShort2.layout_component_sx_short_total fit mk_inner). Qed.
 Print Assumptions C01_spline_routing_returns_without_long_edges.
+
+(* ---------- and it does NOT return in general: the recorded finding `spline-corridor`, on the model
+   (Proofs/SplineFinding.v): for 0->1 1->2 2->3 2->4 1->5 2->6 4->5 with 40x24 nodes the edge 1->5 spans three bands, the
+   corridor built for it is ill-formed and the exact model of the router fails on it ([None]); every short edge is fine ---------- *)
+From Autog Require SplineFinding.
+Theorem C01_spline_routing_refuted_on_a_long_edge :
+  SplineFinding.sf_probe = Ok [(0, 2, true, Some 2); (1, 2, true, Some 2); (2, 2, true, Some 2); (3, 2, true, Some 2);
+                               (4, 4, false, None); (5, 2, true, Some 2); (6, 2, true, Some 2)]%nat.
+Proof. exact SplineFinding.spline_corridor_of_a_long_edge_is_ill_formed. Qed.
+Print Assumptions C01_spline_routing_refuted_on_a_long_edge.
